@@ -46,12 +46,32 @@ mutual
     | f :: fs, gs => gs.any (fun g => C15_subCont f g) && C15_subConts fs gs
 end
 
-/-- NOT PROVED (checked by the pcb oracle): for every document and every program, what the filtered parse stores is a
-    sub-structure of the document's denotation (= what the unfiltered parse stores, `C15_all_continue_mirror_full`).
-    The second half — everything that is *not* bypassed is stored — needs the declarative notion of "bypassed" of the
-    Python oracle (`Sim` in tools/gen/pcb.py) and is not stated in Lean. -/
+-- Boolean equality of stored CIFs (values compared with `V.beq`)
+def C15_loopBeq (a b : Loop) : Bool :=
+  a.category == b.category && a.names == b.names && a.packets.length == b.packets.length
+    && (List.zip a.packets b.packets).all (fun x => V.beqList x.1 x.2)
+mutual
+  def C15_contBeq : Container → Container → Bool
+    | .mk c fs ls, b => c == b.code && C15_contsBeq fs b.frames && ls.length == b.loops.length
+        && (List.zip ls b.loops).all (fun x => C15_loopBeq x.1 x.2)
+  def C15_contsBeq : List Container → List Container → Bool
+    | [], [] => true
+    | f :: fs, g :: gs => C15_contBeq f g && C15_contsBeq fs gs
+    | _, _ => false
+end
+
+/-- **"everything else is stored as in an unfiltered parse"** — the remaining clause of the skip semantics, stated over the
+    document tree: for every well-formed document and every program that only continues or skips, the stored CIF is the
+    denotation of the document with the bypassed sub-trees removed (`prunedDoc`, Spec/Traversal.lean part 3: the sub-trees
+    below the elements whose start answered SKIP_CURRENT, plus the later siblings after SKIP_SIBLINGS, with the documented
+    conventions listed there).
+    NOT PROVED.  Reduced by `C15_stored_is_structural` below to a statement about the structural interpreter `kDoc` (no tokens,
+    no fuel): what remains is `(kDoc p true d (St.init [])).2 = denote (prunedDoc p true d)`, a structural induction over `d`
+    with a three-way case split at each handler call site.  Kernel-checked below for every single deviation and many double deviations on
+    two documents; checked on every run by the (now strict) pcb oracle. -/
 def C15_skip_semantics_rest_full : Prop :=
-  ∀ (d : Doc) (p : Prog), C15_subConts (parseCB p true (tokensOf d)).2.2 (denote d) = true
+  ∀ (d : Doc) (p : Prog), wfDoc d = true → NoStop p →
+    C15_contsBeq (parseCB p true (tokensOf d)).2.2 (denote (prunedDoc p true d)) = true
 
 -- ---- proved ------------------------------------------------------------------------------------------------------
 
@@ -310,6 +330,18 @@ theorem C15_all_continue_mirror_parseCB (d : Doc) (hw : wfDoc d = true) (hf : sz
   unfold parseCB
   rw [h1, h2, h3]
 
+/-- **Skip semantics, reduction to the document tree** (stage 1 of the remaining clause): for every well-formed document and
+    every program that only continues or skips, in both modes, the parse returns CIF_OK and what it logs and stores is what
+    the structural interpreter `kDoc` — the same handler steps applied to the document tree, without tokens or fuel — logs
+    and stores. -/
+theorem C15_stored_is_structural (p : Prog) (hp : NoStop p) (storing : Bool) (d : Doc) (hw : wfDoc d = true)
+    (hf : szDoc d + 1 ≤ fuelFor (tokensOf d)) :
+    parseCB p storing (tokensOf d)
+      = ((kDoc p storing d (St.init [])).1.log.reverse, OK, (kDoc p storing d (St.init [])).2) := by
+  obtain ⟨h1, h2, h3⟩ := doc_stage1 p hp storing d (fuelFor (tokensOf d)) hw hf
+  unfold parseCB
+  rw [h1, h2, h3]
+
 -- ---- the repaired defect F33, as a statement about the pinned variant ------------------------------------------------
 
 /-- before fix 43d0bb7 a positive answer of handle_loop_start did not skip the loop body: the packets were parsed (with
@@ -363,6 +395,25 @@ example : (parseCB (fun k _ => if k = 2 then 7 else 0) true (tokensOf C15_demo))
 example : Bal 0 1 ∧ Bal 2 2 ∧ ¬ Bal 2 1 := by unfold Bal; omega
 -- the mirror hypotheses hold for the demo document
 example : wfDoc C15_demo = true ∧ szDoc C15_demo + 1 ≤ fuelFor (tokensOf C15_demo) := by decide +kernel
+-- the remaining skip-semantics clause, kernel-checked on two documents for every single deviation (SKIP_CURRENT /
+-- SKIP_SIBLINGS at each of the handler invocations) and for the pairs whose first deviation is at loop_start, packet_start,
+-- a loop item or packet_end of the first loop
+def C15_loopDoc : Doc :=
+  [{ code := (a!"t"), body := [.item (a!"_s") (.chr false (a!"a")),
+      .loop [(a!"_a"), (a!"_b")] [[.unk, .na], [.chr false (a!"1"), .chr false (a!"2")], [.na, .unk]],
+      .frame (a!"f") [.loop [(a!"_c")] [[.unk], [.na]], .item (a!"_t") .na],
+      .item (a!"_u") .unk] },
+   { code := (a!"u"), body := [.item (a!"_z") .na] }]
+def C15_dev1 (k : Nat) (r : Int) : Prog := fun i _ => if i = k then r else 0
+def C15_dev2 (k1 : Nat) (r1 : Int) (k2 : Nat) (r2 : Int) : Prog := fun i _ => if i = k1 then r1 else if i = k2 then r2 else 0
+def C15_restOK (p : Prog) (d : Doc) : Bool := C15_contsBeq (parseCB p true (tokensOf d)).2.2 (denote (prunedDoc p true d))
+example : (List.range 20).all (fun k => [(-1 : Int), -2].all (fun r => C15_restOK (C15_dev1 k r) C15_demo)) = true := by
+  decide +kernel
+example : (List.range 34).all (fun k => [(-1 : Int), -2].all (fun r => C15_restOK (C15_dev1 k r) C15_loopDoc)) = true := by
+  decide +kernel
+example : [3, 4, 6, 7].all (fun k1 => (List.range 34).all (fun k2 => [(-1 : Int), -2].all (fun r1 =>
+    [(-1 : Int), -2].all (fun r2 => C15_restOK (C15_dev2 k1 r1 k2 r2) C15_loopDoc)))) = true := by
+  decide +kernel
 -- the value-mirror hypotheses on a nested value
 example : wfV (.lst [.unk, .tbl [((a!"k"), (a!"k"), .lst [.na])]]) = true ∧ szV (.lst [.unk, .tbl [((a!"k"), (a!"k"), .lst [.na])]]) = 13 := by decide +kernel
 -- the sub-structure relation on the demo: a filtered parse (block_start answers SKIP_CURRENT; an item answers SKIP_CURRENT)
